@@ -299,10 +299,10 @@ func (c *Ctx) evalIdent(env *specEnv, name string) (specVal, error) {
 			return specVal{}, fmt.Errorf("%s: function has only %d results", name, len(env.results))
 		}
 		var rt types.Type = tAny
-		if env.fn != nil && idx < env.fn.Signature.Results().Len() {
-			rt = env.fn.Signature.Results().At(idx).Type()
-		} else if env.resTypes != nil && idx < len(env.resTypes) {
+		if env.resTypes != nil && idx < len(env.resTypes) {
 			rt = env.resTypes[idx]
+		} else if env.fn != nil && idx < env.fn.Signature.Results().Len() {
+			rt = env.fn.Signature.Results().At(idx).Type()
 		}
 		return specVal{c.toTerm(env.st, env.results[idx]), rt}, nil
 	}
@@ -822,13 +822,14 @@ func (c *Ctx) evalCall(env *specEnv, n *SNode) (specVal, error) {
 		}
 		key := name + "#" + n.Args[1].Text
 		idx, _ := strconv.Atoi(n.Args[2].Text)
+		rtyp := c.typeOfCallRes(env, name, n.Args[1].Text, idx)
 		vals, ok := st.callResults[key]
 		if !ok || idx >= len(vals) {
-			// the call did not happen on this path: an arbitrary value
-			return specVal{c.FreshConst(st, "nocall", SAny), tAny}, nil
+			// the call did not happen on this path: an arbitrary value of the right type
+			return specVal{c.FreshConst(st, "nocall", c.Reg.SortOf(rtyp)), rtyp}, nil
 		}
 		t := c.toTerm(st, vals[idx])
-		return specVal{t, c.typeOfCallRes(env, name, n.Args[1].Text, idx)}, nil
+		return specVal{t, rtyp}, nil
 	case "fresh":
 		// fresh(x): x was allocated by the call (it did not exist in the pre-state)
 		x, err := argv(0)
